@@ -4,12 +4,27 @@ Engine/Regex.vos Engine/Regex.vok Engine/Regex.required_vos: Engine/Regex.v
 Gen/Patterns.vo Gen/Patterns.glob Gen/Patterns.v.beautified Gen/Patterns.required_vo: Gen/Patterns.v Engine/Regex.vo
 Gen/Patterns.vio: Gen/Patterns.v Engine/Regex.vio
 Gen/Patterns.vos Gen/Patterns.vok Gen/Patterns.required_vos: Gen/Patterns.v Engine/Regex.vos
+Gen/PyTables.vo Gen/PyTables.glob Gen/PyTables.v.beautified Gen/PyTables.required_vo: Gen/PyTables.v 
+Gen/PyTables.vio: Gen/PyTables.v 
+Gen/PyTables.vos Gen/PyTables.vok Gen/PyTables.required_vos: Gen/PyTables.v 
+PyRt/Str.vo PyRt/Str.glob PyRt/Str.v.beautified PyRt/Str.required_vo: PyRt/Str.v Engine/Regex.vo Gen/PyTables.vo
+PyRt/Str.vio: PyRt/Str.v Engine/Regex.vio Gen/PyTables.vio
+PyRt/Str.vos PyRt/Str.vok PyRt/Str.required_vos: PyRt/Str.v Engine/Regex.vos Gen/PyTables.vos
 Gen/Tables.vo Gen/Tables.glob Gen/Tables.v.beautified Gen/Tables.required_vo: Gen/Tables.v Engine/Regex.vo Gen/Patterns.vo
 Gen/Tables.vio: Gen/Tables.v Engine/Regex.vio Gen/Patterns.vio
 Gen/Tables.vos Gen/Tables.vok Gen/Tables.required_vos: Gen/Tables.v Engine/Regex.vos Gen/Patterns.vos
-Extract/Val.vo Extract/Val.glob Extract/Val.v.beautified Extract/Val.required_vo: Extract/Val.v Engine/Regex.vo
-Extract/Val.vio: Extract/Val.v Engine/Regex.vio
-Extract/Val.vos Extract/Val.vok Extract/Val.required_vos: Extract/Val.v Engine/Regex.vos
-Extract/Driver.vo Extract/Driver.glob Extract/Driver.v.beautified Extract/Driver.required_vo: Extract/Driver.v Engine/Regex.vo Gen/Patterns.vo Extract/Val.vo
-Extract/Driver.vio: Extract/Driver.v Engine/Regex.vio Gen/Patterns.vio Extract/Val.vio
-Extract/Driver.vos Extract/Driver.vok Extract/Driver.required_vos: Extract/Driver.v Engine/Regex.vos Gen/Patterns.vos Extract/Val.vos
+Extract/Val.vo Extract/Val.glob Extract/Val.v.beautified Extract/Val.required_vo: Extract/Val.v Engine/Regex.vo PyRt/Str.vo
+Extract/Val.vio: Extract/Val.v Engine/Regex.vio PyRt/Str.vio
+Extract/Val.vos Extract/Val.vok Extract/Val.required_vos: Extract/Val.v Engine/Regex.vos PyRt/Str.vos
+Extract/Driver.vo Extract/Driver.glob Extract/Driver.v.beautified Extract/Driver.required_vo: Extract/Driver.v Engine/Regex.vo Gen/Patterns.vo PyRt/Str.vo Extract/Val.vo Model/Aliquot.vo
+Extract/Driver.vio: Extract/Driver.v Engine/Regex.vio Gen/Patterns.vio PyRt/Str.vio Extract/Val.vio Model/Aliquot.vio
+Extract/Driver.vos Extract/Driver.vok Extract/Driver.required_vos: Extract/Driver.v Engine/Regex.vos Gen/Patterns.vos PyRt/Str.vos Extract/Val.vos Model/Aliquot.vos
+Model/Aliquot.vo Model/Aliquot.glob Model/Aliquot.v.beautified Model/Aliquot.required_vo: Model/Aliquot.v Engine/Regex.vo Gen/Patterns.vo PyRt/Str.vo Gen/Tables.vo
+Model/Aliquot.vio: Model/Aliquot.v Engine/Regex.vio Gen/Patterns.vio PyRt/Str.vio Gen/Tables.vio
+Model/Aliquot.vos Model/Aliquot.vok Model/Aliquot.required_vos: Model/Aliquot.v Engine/Regex.vos Gen/Patterns.vos PyRt/Str.vos Gen/Tables.vos
+Spec/Geometry.vo Spec/Geometry.glob Spec/Geometry.v.beautified Spec/Geometry.required_vo: Spec/Geometry.v Model/Aliquot.vo
+Spec/Geometry.vio: Spec/Geometry.v Model/Aliquot.vio
+Spec/Geometry.vos Spec/Geometry.vok Spec/Geometry.required_vos: Spec/Geometry.v Model/Aliquot.vos
+Spec/C02Spec.vo Spec/C02Spec.glob Spec/C02Spec.v.beautified Spec/C02Spec.required_vo: Spec/C02Spec.v Model/Aliquot.vo Spec/Geometry.vo
+Spec/C02Spec.vio: Spec/C02Spec.v Model/Aliquot.vio Spec/Geometry.vio
+Spec/C02Spec.vos Spec/C02Spec.vok Spec/C02Spec.required_vos: Spec/C02Spec.v Model/Aliquot.vos Spec/Geometry.vos
